@@ -167,12 +167,20 @@ InitProto ==
   /\ inst \in ProtoInsts /\ sp \in ProtoSpells /\ \E n \in ProtoLocIds : loc = ProtoLoc[n]
   /\ base = BaseOf(Spell[sp]) /\ Fresh /\ cases = <<>>
 
+\* one disjunct per public call, so that TLC's coverage reports each of them
+More == Len(hist) < MaxDepth
+PNumpy      == More /\ Numpy /\ UNCHANGED cases
+PArray      == More /\ Array /\ UNCHANGED cases
+PToBytes    == More /\ ToBytes /\ UNCHANGED cases
+PToFileFile == More /\ ToFile("tofile_file") /\ UNCHANGED cases
+PToFileMem  == More /\ ToFile("tofile_mem") /\ UNCHANGED cases
+PConvert    == More /\ Convert /\ UNCHANGED cases
+PRelease    == More /\ Release /\ UNCHANGED cases
+PInvalidate == More /\ Invalidate /\ UNCHANGED cases
+PSetBase    == More /\ (\E s \in ProtoSpells : SetBase(s)) /\ UNCHANGED cases
 NextProto ==
-  /\ Len(hist) < MaxDepth
-  /\ \/ Numpy \/ Array \/ ToBytes \/ ToFile("tofile_file") \/ ToFile("tofile_mem")
-     \/ Convert \/ Release \/ Invalidate
-     \/ \E s \in ProtoSpells : SetBase(s)
-  /\ UNCHANGED cases
+  \/ PNumpy \/ PArray \/ PToBytes \/ PToFileFile \/ PToFileMem
+  \/ PConvert \/ PRelease \/ PInvalidate \/ PSetBase
 
 EmitHist ==
   EmitOn =>
